@@ -507,7 +507,8 @@ theorem until_time_on_empty_agenda (I : IdSt σ) (body : σ → Resume → Burst
 `Piece` = `step n | untilEvent e | untilTime t`; `execPlan body fuel budget plan s` runs the pieces one after the other on
 the model (`stepN`, `runUntilEvent`, `runUntilTime`) and yields `some s'` iff every piece returned normally (it stops at the
 first raise).  `stackT cs sK`: the transformations `c.T false` of the numeric stops made (latest first) applied to a state of
-the uninterrupted run; `stackρ cs`: the composed renaming; `splitState cs sK x`: `stackT cs sK` with clock `x`.
+the uninterrupted run; `stackρ cs`: the composed renaming; `splitState cs sK x`: `stackT cs sK` with clock `x`;
+`StackOK I cs sK`: every stop of `cs` was made at an index and `eid` that exist below it and renames local states by `I.rn`.
 `viewTrace` / `viewProcs` (`Lemmas/SplitPlanView.lean`): the trace and the process table as a program and the harness can
 observe them — processes and events by creation label, values rendered (`renderSimple` ∘ `freezeVal`; `Preempted` by the
 label of the preempting process and the victim's `usage_since`). -/
@@ -524,12 +525,12 @@ theorem split_plan_transparent (I : IdSt σ) (body : σ → Resume → Burst ℚ
     (hB : ∀ u, 0 < u → BodySim (shAt u) (I.rn u) body) (plan : List Piece) (s0 S' : KState ℚ σ)
     (h0 : WS I s0) (hs0 : SortedAg s0) (hns0 : AllStopFree s0) (hpos : 0 < s0.events.size) (hS : ScopedRun I body fuel s0)
     (h : execPlan body fuel budget plan s0 = some S') :
-    ∃ K sK cs x, stepN body fuel K s0 = .ok sK ∧ cs.length = numStops plan ∧ S' = splitState cs sK x ∧
+    ∃ K sK cs x, stepN body fuel K s0 = .ok sK ∧ cs.length = numStops plan ∧ StackOK I cs sK ∧ S' = splitState cs sK x ∧
       S'.trace = sK.trace.map (rnObs (stackρ cs)) ∧ viewTrace S' = viewTrace sK ∧ viewProcs S' = viewProcs sK ∧
       AllStopFree S' ∧ SortedAg S' ∧ WS I S' := by
-  obtain ⟨K, sK, cs, x, h1, h2, _, h4, h5, h6, h7, h8, h9, h10, _⟩ :=
+  obtain ⟨K, sK, cs, x, h1, h2, h3, h4, h5, h6, h7, h8, h9, h10, _⟩ :=
     plan_transparent body fuel budget hB plan s0 S' h0 hs0 hns0 hpos hS h
-  exact ⟨K, sK, cs, x, h1, h2, h4, h5, h6, h7, h8, h9, h10⟩
+  exact ⟨K, sK, cs, x, h1, h2, h3, h4, h5, h6, h7, h8, h9, h10⟩
 
 open SplitWF SplitPlan in
 /-- **What a split plan lets the program and the harness observe is what the uninterrupted run lets them observe** — from
@@ -581,7 +582,7 @@ example : ∃ S' K sK cs x, execPlan (_root_.body SplitPlanDemo.progs) 5 100 Spl
   | some S' =>
     rw [hS'] at hret
     simp only [Option.map_some, Option.some.injEq, Prod.mk.injEq] at hret
-    obtain ⟨K, sK, cs, x, h1, h2, h3, _, h5, h6, _⟩ := split_plan_transparent (IdSt.none SSt) _ 5 100 SplitPlanDemo.body_opaque
+    obtain ⟨K, sK, cs, x, h1, h2, _, h3, _, h5, h6, _⟩ := split_plan_transparent (IdSt.none SSt) _ 5 100 SplitPlanDemo.body_opaque
       SplitPlanDemo.plan SplitPlanDemo.s0 S' SplitPlanDemo.s0_facts.1 SplitPlanDemo.s0_facts.2.1 SplitPlanDemo.s0_facts.2.2.1
       SplitPlanDemo.s0_pos SplitPlanDemo.run_scoped hS'
     exact ⟨S', K, sK, cs, x, rfl, h1, by rw [h2]; exact SplitPlanDemo.plan_stops, h3, h5, h6, hret.1, hret.2.1⟩
@@ -645,12 +646,12 @@ theorem split_plan_transparent_runlevel (I : IdSt σ) (body : σ → Resume → 
     (h0 : WS I s0) (hs0 : SortedAg s0) (hns0 : AllStopFree s0) (hpos : 0 < s0.events.size) (hS : ScopedRun I body fuel s0)
     (hsim : PlanSim I body fuel budget plan s0)
     (h : execPlan body fuel budget plan s0 = some S') :
-    ∃ K sK cs x, stepN body fuel K s0 = .ok sK ∧ cs.length = numStops plan ∧ S' = splitState cs sK x ∧
+    ∃ K sK cs x, stepN body fuel K s0 = .ok sK ∧ cs.length = numStops plan ∧ StackOK I cs sK ∧ S' = splitState cs sK x ∧
       S'.trace = sK.trace.map (rnObs (stackρ cs)) ∧ viewTrace S' = viewTrace sK ∧ viewProcs S' = viewProcs sK ∧
       AllStopFree S' ∧ SortedAg S' ∧ WS I S' := by
-  obtain ⟨K, sK, cs, x, h1, h2, _, h4, h5, h6, h7, h8, h9, h10, _⟩ :=
+  obtain ⟨K, sK, cs, x, h1, h2, h3, h4, h5, h6, h7, h8, h9, h10, _⟩ :=
     plan_transparent_run body fuel budget plan s0 S' h0 hs0 hns0 hpos hS hsim h
-  exact ⟨K, sK, cs, x, h1, h2, h4, h5, h6, h7, h8, h9, h10⟩
+  exact ⟨K, sK, cs, x, h1, h2, h3, h4, h5, h6, h7, h8, h9, h10⟩
 
 open SplitPlan in
 /-- the run-level theorem applies where the program-level one does not: `SplitSimDemo.oddBody` names a guessed id in a
@@ -667,7 +668,7 @@ example : (∀ u, u ≤ 1000 → ¬ BodySim (shAt u) (SplitSimDemo.IN.rn u) Spli
   | some S' =>
     rw [hS'] at hret
     simp only [Option.map_some, Option.some.injEq, Prod.mk.injEq] at hret
-    obtain ⟨K, sK, cs, x, h1, h2, h3, _, h5, h6, _⟩ := split_plan_transparent_runlevel SplitSimDemo.IN _ 5 100
+    obtain ⟨K, sK, cs, x, h1, h2, _, h3, _, h5, h6, _⟩ := split_plan_transparent_runlevel SplitSimDemo.IN _ 5 100
       SplitSimDemo.plan SplitSimDemo.t0 S' SplitSimDemo.t0_facts.1 SplitSimDemo.t0_facts.2.1 SplitSimDemo.t0_facts.2.2.1
       SplitSimDemo.t0_pos SplitSimDemo.run_scoped SplitSimDemo.plan_sim hS'
     exact ⟨S', K, sK, cs, x, rfl, h1, by rw [h2]; rfl, h3, h5, h6, hret.1⟩
